@@ -4,7 +4,7 @@ CONSTANTS FlawShallowListFreeze = FALSE
  FlawAppendSharesCapacity = FALSE
  FlawSortedAliasesOrdered = FALSE
  OnlyTargets = {}
- DeepTargets = {}
+ DeepTargets = {"x", "L", "mk", "A"}
  MaxMut = 2
  DeepVias = {"direct", "alias"}
  LastVias = {"arg", "compr", "loop"}
